@@ -46,7 +46,7 @@ CHECKS = {
     ),
     "C05": dict(
         text="TLC evaluates the Batch specification (Parser index maps and the padded-orbital pack map transcribed with exact integer arithmetic) on every batch of an enumerated lattice: the index structure of a molecule in any batch is its solo structure shifted (Transparent), row reversal and extra padding columns only re-base it (PermInvariant, PadInvariant), pack is a bijection on physical orbitals. Every exported batch is run through the real Parser with three padding-coordinate conventions and every index tensor compared exactly; pack/unpack are decoded on self-describing matrices against the spec's map (single, homogeneous and mixed batch paths). Value transparency (molecule in batch vs alone; row orders, extra padding, padding coordinates, five solver configurations) and exactly-zero padding forces are monitored with stated tolerances; per-molecule convergence masks are C03's Frozen/NoReactivation.",
-        note="Index lattice: <=2 (thorough 3) rows, <=3 atoms, species {H,(C),O}; value layouts are a sample drawn by VERIF_SEED; tolerances 1e-7 (energy-like) / 1e-6 (force-like) at scf_eps 1e-10, observed deviations <=1e-3 of them. Same-element relabelling and MD trajectory independence are covered only indirectly.",
+        note="Index lattice: <=2 (thorough 3) rows, <=3 atoms, species {H,(C),O}; value layouts are a sample drawn by VERIF_SEED; tolerances 1e-7 (energy-like) / 1e-6 (force-like) at scf_eps 1e-10, observed deviations <=1e-3 of them. Same-element relabelling is compared directly (atoms of equal atomic number permuted inside every molecule; scalars equal, per-atom outputs follow the permutation); MD trajectory independence is covered through C20's and C08's batch variants.",
         tech="explicit TLA+ specification (Batch) evaluated exhaustively by TLC as index oracle; exact comparison with the real Parser/pack; monitored value predicates",
         ref="DESIGN.md §4 C05",
     ),
